@@ -27,6 +27,18 @@ type Node struct {
 	// entries at or below it are dead weight (represented by the snapshot).
 	snapLabel uint64
 
+	lifecycle *ApiCall // the lifecycle call in progress (API fuzzer)
+	// Taints: signatures of known findings observed on this node (F1 mislabelled snapshot
+	// taken or installed, F2 restored to an older state, F3 chunk of another snapshot written
+	// into a snapshot file). Consequence-type violations on a tainted node carry the taint in
+	// their cause, so that only those are matched by the known findings.
+	taint map[string]bool
+	lastISAt  int64    // FifoIS: delivery time of the last InstallSnapshot request to this node
+
+	// The machine's wall clock (survives process restarts).
+	clockSet                       bool
+	clockOffset, clockNum, clockDen int64
+
 	Mirror *Mirror // recorder's copy of the persistent log
 
 	// Across incarnations, for C08.
@@ -58,6 +70,15 @@ type Incarnation struct {
 	bootstrapped bool
 
 	lastVoterReplyNs int64
+
+	restoring int // InstallSnapshot handlers inside their unlocked restore window
+	isBusy    bool
+	isQueue []*Msg
+
+	pendingConf []*ConfCall
+	haveConf    bool
+	lastConf    raft.Configuration
+	stalledNs   int64
 }
 
 func (i *Incarnation) Name() string { return fmt.Sprintf("%s.%d", i.Node.ID, i.N) }
@@ -80,6 +101,7 @@ type Cluster struct {
 	bootMembers map[string]string
 	bootVoters  map[string]bool
 
+	lagging    *Node
 	healing    bool
 	healedInMs int64
 	window     *stickyWindow
@@ -160,6 +182,10 @@ func (c *Cluster) startNode(n *Node, done func(err error)) {
 	inc := &Incarnation{Node: n, N: n.IncCount, inflight: map[uint64]*Msg{}, leaderTerms: map[uint64]bool{}}
 	inc.Proc = c.Sim.NewProc(inc.Name())
 	inc.Proc.Data = inc
+	// The machine's clock does not reset when the process restarts.
+	if n.clockSet {
+		inc.Proc.Offset, inc.Proc.RateNum, inc.Proc.RateDen = n.clockOffset, n.clockNum, n.clockDen
+	}
 	inc.startedAt = c.Sim.Now()
 	inc.Proc.OnExit = func(p *simrt.Proc, code int) { c.onProcExit(inc, code, p.ExitStack) }
 	n.FS.Thaw()
@@ -249,6 +275,7 @@ func (c *Cluster) crashNode(n *Node, kind string) {
 	c.Stats.Crashes++
 	c.Stats.CrashKinds[kind]++
 	n.crashes++
+	n.saveClock(inc)
 	inc.Up = false
 	n.Inc = nil
 	n.FS.Frozen = true
@@ -274,6 +301,10 @@ func (c *Cluster) crashNode(n *Node, kind string) {
 		c.Net.fail(inc.inflight[id], "peer crashed")
 	}
 	inc.inflight = map[uint64]*Msg{}
+	for _, q := range inc.isQueue {
+		c.Net.fail(q, "peer crashed")
+	}
+	inc.isQueue = nil
 	if c.Cfg.AutoRestartMs > 0 && !c.healing {
 		d := c.faultRng.Range(1, int64(c.Cfg.AutoRestartMs)) * 1_000_000
 		c.Sim.After(d, func() {
@@ -298,6 +329,7 @@ func (c *Cluster) onProcExit(inc *Incarnation, code int, stack string) {
 	c.Rec.fatalExit(inc, code, stack)
 	n := inc.Node
 	if n.Inc == inc {
+		n.saveClock(inc)
 		inc.Up = false
 		n.Inc = nil
 		n.FS.Frozen = true
@@ -365,4 +397,10 @@ func (c *Cluster) believedLeader() *Node {
 		}
 	}
 	return best
+}
+
+func (n *Node) saveClock(inc *Incarnation) {
+	p := inc.Proc
+	n.clockSet = true
+	n.clockOffset, n.clockNum, n.clockDen = p.Offset, p.RateNum, p.RateDen
 }
